@@ -48,7 +48,10 @@ def value(obj, depth=0):
     if isinstance(obj, (list, tuple)):
         return [value(x, depth + 1) for x in obj]
     if hasattr(obj, 'layers_forward'):
-        return ('circ', getattr(obj, 'N', None), [value(l, depth + 1) for l in obj.layers_forward()], value(obj.forward_map), value(obj.backward_map))
+        fwd = list(obj.layers_forward())
+        # the backward chain must visit the same layers in reverse order (positions in the forward chain; -1 = a foreign layer)
+        back = [next((i for i, l in enumerate(fwd) if l is b), -1) for b in obj.layers_backward()] if hasattr(obj, 'layers_backward') else None
+        return ('circ', getattr(obj, 'N', None), [value(l, depth + 1) for l in fwd], back, value(obj.forward_map), value(obj.backward_map))
     if hasattr(obj, '__dict__'):
         return (type(obj).__name__, sorted((k, value(v, depth + 1)) for k, v in vars(obj).items() if k not in ('prev_layer', 'next_layer')))
     return repr(obj)
@@ -140,6 +143,30 @@ def run(ctx):
                 continue
             if value(obj) != v0:
                 ctx.fail(kind + '.copy', 'copy() modified the original', dict(kind=kind))
+            if kind in ('CliffordGate', 'CliffordLayer', 'CliffordCircuit'):
+                # observational equality: the copy acts as the original in both directions, also after both were extended alike
+                probes = [G.rand_op(rng, n) for _q in range(3)] + G.id_map_ops(n)
+
+                def act(o_):
+                    l1, l2 = impl.plist(probes), impl.plist(probes)
+                    o_.forward(l1); o_.backward(l2)
+                    return impl.ops_of(l1), impl.ops_of(l2)
+                a_o, a_c = act(obj), act(cp)
+                if a_o != a_c:
+                    ctx.fail(kind + '.copy', 'the copy does not act as the original (forward / backward on the same operators)', dict(kind=kind, original=str(v0)[:1200]))
+                    continue
+                v0 = value(obj)            # running backward may have filled lazily cached inverse maps
+                if kind == 'CliffordCircuit' and rng.random() < 0.5:
+                    ext = CU.rand_program(rng, n, rng.randrange(1, 4), kinds=('named', 'cnot', 'gen'))
+                    uncompiled = obj.forward_map is None
+                    for d_ in ext:
+                        obj.take(CU.impl_gate(impl, d_)); cp.take(CU.impl_gate(impl, d_))
+                    b_o, b_c = act(obj), act(cp)
+                    ctx.count('copy:extended')
+                    if b_o != b_c or CU.impl_layers(obj) != CU.impl_layers(cp) or (uncompiled and b_o[0] != CU.oracle_forward(ext, a_o[0])):
+                        ctx.fail(kind + '.copy', 'after taking the same further gates the copy and the original differ (layers or action), or do not act as the extended program',
+                                 dict(kind=kind, extension=ext, layers=[CU.impl_layers(obj), CU.impl_layers(cp)]))
+                    continue
             if shares(obj, cp):
                 ctx.fail(kind + '.copy', 'copy shares mutable array data with the original', dict(kind=kind, original=str(v0)[:800]))
                 continue
